@@ -4,7 +4,7 @@ import json, sys
 pid, wt = sys.argv[1], sys.argv[2]
 n = int(sys.argv[3]) if len(sys.argv) > 3 else 2
 p = next(json.loads(l) for l in open("/verif/properties.jsonl") if json.loads(l)["id"] == pid)
-print(f"""You are testing how good a verification effort is by planting realistic bugs. You work ONLY inside the git worktree {wt} (a checkout of the urllib3 source tree; Python package under {wt}/src/urllib3, tests under {wt}/test). Never touch /repo or /verif, never read anything under /verif. Use /venv/bin/python. IMPORTANT: /venv has urllib3 installed in editable mode pointing elsewhere, so ALWAYS run python/pytest with `PYTHONPATH={wt}/src` (check with `PYTHONPATH={wt}/src /venv/bin/python -c "import urllib3; print(urllib3.__file__)"`). There is no network.
+print(f"""You are testing how good a verification effort is by planting realistic bugs. You work ONLY inside the git worktree {wt} (a checkout of the urllib3 source tree; Python package under {wt}/src/urllib3, tests under {wt}/test). Never touch /repo or /verif, never read anything under /verif. Use /venv/bin/python. IMPORTANT: /venv has urllib3 installed in editable mode pointing elsewhere, so ALWAYS run python/pytest with `PYTHONPATH={wt}/src` (check with `PYTHONPATH={wt}/src /venv/bin/python -c "import urllib3; print(urllib3.__file__)"`). There is no network. Other agents work in sibling worktrees of the same repository at the same time: NEVER use `git stash` (the stash is shared between worktrees) - to set a change aside use `git diff > file; git checkout -- .` and `git apply file`.
 
 Here is a semantic property of urllib3 that is supposed to hold:
 
